@@ -6,6 +6,7 @@ package main
 import (
 	"errors"
 	"fmt"
+	"net/netip"
 	"os"
 	"runtime"
 	"runtime/debug"
@@ -193,51 +194,59 @@ func okDigest(s string) bool {
 	return true
 }
 
-// registryVerdict: 1 accept, 0 reject, -1 not judged (left to net/url).
+// registryVerdict: 1 accept, 0 reject.  The complete grammar of accepted registries, written from
+// the STATEMENTS of theorems C20_registry_regname_iff / C20_registry_bracket_iff (not from
+// net/url's code): a non-empty string of host bytes -- alphanumerics, - _ . ~ ! $ & ' ( ) * + , ; =
+// : < > " and bytes >= 0x80 -- in which only digits follow the last colon; or '[' host bytes ']'
+// [':' digits] without further brackets whose inside net/netip parses as a non-IPv4 address.
+// Every registry is judged (the return value -1 "not judged" of earlier rounds no longer occurs).
 func registryVerdict(reg string) int {
-	if reg == "" || strings.ContainsRune(reg, '@') {
-		return 0
+	hostByte := func(c byte) bool {
+		return c >= 0x80 || isWord(c) || strings.IndexByte("-.~!$&'()*+,;=:[]<>\"", c) >= 0
 	}
-	// '?' ends a URL authority (the rest would be a query), space, control characters and DEL
-	// are refused by net/url: never a valid registry
-	for i := 0; i < len(reg); i++ {
-		if c := reg[i]; c == '?' || c <= ' ' || c == 0x7f {
-			return 0
-		}
-	}
-	safe := func(s string) bool {
+	allHost := func(s string) bool {
 		for i := 0; i < len(s); i++ {
-			c := s[i]
-			if !(isWord(c) || c == '-' || c == '.') {
+			if !hostByte(s[i]) {
 				return false
 			}
 		}
 		return true
 	}
-	i := strings.IndexByte(reg, ':')
-	if i < 0 {
-		if safe(reg) {
-			return 1
+	digits := func(s string) bool {
+		for i := 0; i < len(s); i++ {
+			if s[i] < '0' || s[i] > '9' {
+				return false
+			}
 		}
-		return -1
+		return true
 	}
-	h, p := reg[:i], reg[i+1:]
-	if !safe(h) || h == "" || strings.ContainsRune(p, ':') {
-		return -1
-	}
-	digits := true
-	for j := 0; j < len(p); j++ {
-		if p[j] < '0' || p[j] > '9' {
-			digits = false
-		}
-	}
-	if digits {
-		return 1
-	}
-	if safe(p) {
+	if reg == "" {
 		return 0
 	}
-	return -1
+	if !strings.Contains(reg, "[") {
+		if !allHost(reg) {
+			return 0
+		}
+		if i := strings.LastIndexByte(reg, ':'); i >= 0 && !digits(reg[i+1:]) {
+			return 0
+		}
+		return 1
+	}
+	j := strings.LastIndexByte(reg, ']')
+	if reg[0] != '[' || j < 0 {
+		return 0
+	}
+	h, p := reg[1:j], reg[j+1:]
+	if strings.Contains(h, "[") || strings.ContainsAny(p, "[]") || !allHost(h) {
+		return 0
+	}
+	if p != "" && (p[0] != ':' || !digits(p[1:])) {
+		return 0
+	}
+	if addr, err := netip.ParseAddr(h); err != nil || addr.Is4() {
+		return 0
+	}
+	return 1
 }
 
 // grammar returns (judged, accepted, expected reference).  Strings ending in a
